@@ -173,7 +173,7 @@ func start(o Options) (*Srv, error) {
 			ProtectedMode: o.Protected,
 		})
 	}()
-	deadline := time.Now().Add(20 * time.Second)
+	deadline := time.Now().Add(60 * time.Second)
 	for {
 		select {
 		case err := <-s.done:
@@ -184,7 +184,7 @@ func start(o Options) (*Srv, error) {
 		c, err := Dial(s.Addr)
 		if err == nil {
 			v, err := c.Do("PING")
-			c.Close()
+			closeNow(c)
 			if err == nil && v.Kind == '+' && v.Str == "PONG" {
 				break
 			}
@@ -205,7 +205,7 @@ func start(o Options) (*Srv, error) {
 			return nil, err
 		}
 		v, err := c.Do("SERVER")
-		c.Close()
+		closeNow(c)
 		if err == nil && !(v.Kind == '-' && len(v.Str) > 7 && v.Str[:7] == "LOADING") {
 			break
 		}
@@ -228,6 +228,15 @@ func start(o Options) (*Srv, error) {
 		return nil, fmt.Errorf("server.started hook did not fire: /repo not built with -tags verif?")
 	}
 	return s, nil
+}
+
+// closeNow closes a polling connection with a reset, so that it does not linger in TIME_WAIT: drivers that start
+// tens of thousands of servers would otherwise run out of ephemeral ports.
+func closeNow(c *Conn) {
+	if tc, ok := c.C.(*net.TCPConn); ok {
+		tc.SetLinger(0)
+	}
+	c.Close()
 }
 
 // Stop shuts the server down cleanly and waits for Serve to return.
